@@ -259,8 +259,9 @@ func GetAttrString(self Object, key string) (res Object, err error) {
 	// along its own MRO (before its metatype is consulted), and binds
 	// what it finds with __get__(None, class): classmethods bind the
 	// class, staticmethods and functions are returned plain.
-	// (Instances of Python classes are *Type values too, but have no MRO.)
-	if t, ok := self.(*Type); ok && t.Mro != nil {
+	// (Instances of Python classes are *Type values too, but have no MRO.
+	// Types defined in Go have none either until they are made ready.)
+	if t, ok := self.(*Type); ok && (t.Mro != nil || t.isBuiltinType()) {
 		if res = t.NativeGetAttrOrNil(key); res != nil {
 			switch d := res.(type) {
 			case *Function, *ClassMethod, *StaticMethod, *Method:
